@@ -137,6 +137,15 @@ func (e *Env) SrcFuncs() []*ssa.Function {
 				case *ssa.Function:
 					add(m)
 				case *ssa.Type:
+					if nt, ok := m.Type().(*types.Named); ok {
+						// declared methods, including those of generic types
+						for i := 0; i < nt.NumMethods(); i++ {
+							add(e.Prog.FuncValue(nt.Method(i)))
+						}
+						if nt.TypeParams().Len() > 0 {
+							continue
+						}
+					}
 					for _, t := range []types.Type{m.Type(), types.NewPointer(m.Type())} {
 						ms := e.Prog.MethodSets.MethodSet(t)
 						for i := 0; i < ms.Len(); i++ {
@@ -336,4 +345,21 @@ func (e *Env) TypesInfo(fn *ssa.Function) *types.Info {
 		return p.TypesInfo
 	}
 	return nil
+}
+
+// PkgOf returns the short package path ("converters/ingress") of fn.
+func PkgOf(fn *ssa.Function) string {
+	for fn != nil && fn.Parent() != nil {
+		fn = fn.Parent()
+	}
+	if fn == nil {
+		return ""
+	}
+	if fn.Pkg != nil {
+		return strings.TrimPrefix(fn.Pkg.Pkg.Path(), Module+"/pkg/")
+	}
+	if o := fn.Origin(); o != nil && o.Pkg != nil {
+		return strings.TrimPrefix(o.Pkg.Pkg.Path(), Module+"/pkg/")
+	}
+	return ""
 }
